@@ -1218,3 +1218,230 @@ func ruleLoopOnlyMutatorFails(c *Ctx, rule string) {
 		c.Undecided(rule, "subjects", "only %d per-row mutator loops found", n)
 	}
 }
+
+// ---- round 3 additions -------------------------------------------------------------------------------
+
+// ruleNoSelfFormat: a String()/Error() method must not hand its own receiver to fmt (infinite recursion).
+func ruleNoSelfFormat(c *Ctx, rule string, pkgs ...string) {
+	c.Rule(rule, "no String()/Error() method formats its own receiver with a fmt verb: fmt would call the method again without end and the process dies with a stack overflow that recover() cannot catch")
+	w := c.W
+	n := 0
+	for _, name := range w.SortedFuncNames() {
+		f := w.Funcs[name]
+		okPkg := false
+		for _, p := range pkgs {
+			if f.Pkg == w.Pkgs[p] {
+				okPkg = true
+			}
+		}
+		if !okPkg || f.Decl.Recv == nil || (f.Decl.Name.Name != "String" && f.Decl.Name.Name != "Error") {
+			continue
+		}
+		n++
+		recv := recvName(f)
+		bad := token.NoPos
+		ast.Inspect(f.Decl.Body, func(x ast.Node) bool {
+			call, ok := x.(*ast.CallExpr)
+			if !ok {
+				return true
+			}
+			k := calleeKey(f.Callee(call))
+			if !strings.HasPrefix(k, "fmt.") {
+				return true
+			}
+			for _, a := range call.Args {
+				if id, ok := ast.Unparen(a).(*ast.Ident); ok && id.Name == recv && recv != "" {
+					bad = call.Pos()
+				}
+				if u, ok := ast.Unparen(a).(*ast.UnaryExpr); ok && (u.Op == token.AND || u.Op == token.MUL) {
+					if id, ok := ast.Unparen(u.X).(*ast.Ident); ok && id.Name == recv && recv != "" {
+						bad = call.Pos()
+					}
+				}
+			}
+			return true
+		})
+		key := f.Name + "|self-format"
+		if bad.IsValid() {
+			c.Fail(rule, key, bad, "%s passes its own receiver to fmt: formatting the value recurses into this method forever (stack overflow kills the process)", f.Name)
+		} else {
+			c.OK(rule, key, f.Decl.Pos(), 1, "formats fields only")
+		}
+	}
+	if n == 0 {
+		c.Note("%s: no String/Error methods in %v", rule, pkgs)
+	}
+}
+
+// ruleCurOncePerNext: tokenScanner.Cur() has a side effect (it consumes the second character of !=, >=, <=).
+func ruleCurOncePerNext(c *Ctx, rule string) {
+	c.Rule(rule, "the token scanner's Cur() is not idempotent — for '!=', '>=' and '<=' it consumes the second character — so every loop driving the scanner calls Cur() exactly once per Next(): a second call would yield '=' and the stored operator would silently change")
+	w := c.W
+	n := 0
+	for _, name := range w.SortedFuncNames() {
+		f := w.Funcs[name]
+		ast.Inspect(f.Decl.Body, func(x ast.Node) bool {
+			fs, ok := x.(*ast.ForStmt)
+			if !ok || fs.Cond == nil {
+				return true
+			}
+			call, ok := ast.Unparen(fs.Cond).(*ast.CallExpr)
+			if !ok || !f.CallIs(call, "sql.tokenScanner.Next") {
+				return true
+			}
+			n++
+			curs := f.Calls(fs.Body, true, "sql.tokenScanner.Cur")
+			key := f.Name + "|cur-once-per-next"
+			c.Check(len(curs) == 1, rule, key, fs.Pos(), "one Cur() per Next()", "the scanner loop calls Cur() "+itoa(len(curs))+" times per Next(): for two-character operators the second call returns '=' and 'a >= 5' is parsed as 'a = 5'")
+			return true
+		})
+	}
+	if n < 2 {
+		c.Undecided(rule, "subjects", "only %d scanner loops found (engine.parseSQL and csvimport expected)", n)
+	}
+}
+
+// ruleFilledByIndex: a slice made with len(xs) and filled by index in the loop over xs must be stored in every iteration.
+func ruleFilledByIndex(c *Ctx, rule string, fnNames ...string) {
+	c.Rule(rule, "a result slice that is pre-sized with len(xs) and filled by index inside the loop over xs receives an element in every iteration (no continue before the store): a skipped index stays nil and the consumer dereferences it")
+	for _, fn := range fnNames {
+		f := c.NeedFunc(rule, fn)
+		if f == nil {
+			continue
+		}
+		g := f.Graph()
+		n := 0
+		inspectBody(f.Decl.Body, func(x ast.Node) bool {
+			rs, ok := x.(*ast.RangeStmt)
+			if !ok || rs.Key == nil {
+				return true
+			}
+			// out[key] = ... in the body, with out := make([]T, len(rs.X))
+			var store *ast.AssignStmt
+			inspectBody(rs.Body, func(y ast.Node) bool {
+				if as, ok := y.(*ast.AssignStmt); ok && len(as.Lhs) == 1 {
+					if ix, ok := ast.Unparen(as.Lhs[0]).(*ast.IndexExpr); ok && exprKey(ix.Index) == exprKey(rs.Key) {
+						if id, ok := ast.Unparen(ix.X).(*ast.Ident); ok {
+							if rhs, _, ok := f.definedBy(f.Decl.Body, f.ObjOf(id)); ok {
+								if mk, ok := ast.Unparen(rhs).(*ast.CallExpr); ok && len(mk.Args) == 2 && exprKey(mk.Args[1]) == "len("+exprKey(rs.X)+")" {
+									store = as
+								}
+							}
+						}
+					}
+				}
+				return true
+			})
+			if store == nil {
+				return true
+			}
+			n++
+			key := fn + "|filled-by-index#" + itoa(n)
+			// every path from the loop body's entry to the back edge passes the store
+			var bodyBlk *cfg.Block
+			for _, b := range g.c.Blocks {
+				if b.Kind == cfg.KindRangeBody && b.Stmt == ast.Stmt(rs) {
+					bodyBlk = b
+				}
+			}
+			if bodyBlk == nil {
+				c.Undecided(rule, key, "loop body not found")
+				return true
+			}
+			skipped := false
+			start := Loc{bodyBlk, -1}
+			g.Forward(&start, func(b *cfg.Block, si int) bool {
+				if b.Succs[si].Kind == cfg.KindRangeLoop && b.Succs[si].Stmt == ast.Stmt(rs) {
+					skipped = true
+					return false
+				}
+				return true
+			}, func(nn ast.Node, at Loc) Verdict {
+				if nn == ast.Node(store) {
+					return Cut
+				}
+				if _, ok := nn.(*ast.ReturnStmt); ok {
+					return Cut
+				}
+				return Go
+			}, nil)
+			c.Check(!skipped, rule, key, store.Pos(), "every iteration stores its element", "an iteration can be skipped before the element is stored: the pre-sized result keeps a nil entry, which the caller dereferences")
+			return true
+		})
+		if n == 0 {
+			c.Note("%s: %s has no filled-by-index loop", rule, fn)
+		}
+	}
+}
+
+// ruleRecoveryVisitsAll: InitStorage's loop over the databases never ends early with success.
+func ruleRecoveryVisitsAll(c *Ctx, rule string) {
+	c.Rule(rule, "recovery visits every database: inside InitStorage's loop over the database directories no path returns success (a directory without a data file is skipped, it does not end recovery for the databases listed after it); the per-database work (open, read log, replay) happens inside the loop")
+	f := c.NeedFunc(rule, "storage.InitStorage")
+	if f == nil {
+		return
+	}
+	var loop *ast.RangeStmt
+	inspectBody(f.Decl.Body, func(x ast.Node) bool {
+		if rs, ok := x.(*ast.RangeStmt); ok && loop == nil {
+			loop = rs
+		}
+		return true
+	})
+	key := f.Name + "|visits-every-database"
+	if loop == nil {
+		c.Fail(rule, key, f.Decl.Pos(), "InitStorage has no loop over the databases")
+		return
+	}
+	g := f.Graph()
+	bad := false
+	inspectBody(loop.Body, func(x ast.Node) bool {
+		if r, ok := x.(*ast.ReturnStmt); ok && g.ReturnMayBeNil(r) {
+			bad = true
+		}
+		return true
+	})
+	replays := len(f.Calls(loop.Body, true, "storage.WALBatch.replay"))
+	c.Check(!bad && replays == 1, rule, key, loop.Pos(), "no success return inside the loop; each database is replayed", "InitStorage can return success from inside its loop over the databases (or does not replay inside the loop): databases listed after a directory without a data file are never recovered and their acknowledged statements are lost")
+}
+
+// ruleErrorsNotDropped: errors of mkdb's own functions are returned or tested on the statement paths.
+func ruleErrorsNotDropped(c *Ctx, rule string, fnNames ...string) {
+	c.Rule(rule, "the error of a storage-layer call is never overwritten or dropped before it has been looked at: in the named functions every call to a mkdb function whose last result is an error is either returned directly or bound to a variable that is tested (or returned) on every path before it is reassigned")
+	for _, fn := range fnNames {
+		f := c.NeedFunc(rule, fn)
+		if f == nil {
+			continue
+		}
+		n := 0
+		ast.Inspect(f.Decl.Body, func(x ast.Node) bool {
+			if _, isDefer := x.(*ast.DeferStmt); isDefer {
+				return false
+			}
+			call, ok := x.(*ast.CallExpr)
+			if !ok {
+				return true
+			}
+			callee := f.Callee(call)
+			if callee == nil || callee.Pkg() == nil || pkgKey(callee.Pkg().Path()) == "" {
+				return true
+			}
+			sig, _ := callee.Type().(*types.Signature)
+			if sig == nil || sig.Results().Len() == 0 || !isErrorType(sig.Results().At(sig.Results().Len()-1).Type()) {
+				return true
+			}
+			n++
+			key := fn + "|error-of|" + calleeKey(callee) + "#" + itoa(n)
+			body := f.EnclosingBody(call)
+			if ok, how := f.errHandled(body, call); ok {
+				c.OK(rule, key, call.Pos(), 1, "%s", how)
+			} else {
+				c.Fail(rule, key, call.Pos(), "the error of %s is lost (%s): a refused or failed operation is reported as success", exprKey(call.Fun), how)
+			}
+			return true
+		})
+		if n == 0 {
+			c.Undecided(rule, fn+"|calls", "no error-returning mkdb call found")
+		}
+	}
+}
